@@ -257,9 +257,20 @@ class _Iter:
         return out
 
 
+class _Gen:
+    """The value of a call of a generator function: the body runs when (and only when) the generator is consumed - until then nothing of it has happened -, once; always truthy."""
+
+    def __init__(self, thunk):
+        self.thunk = thunk
+
+    def take(self):
+        t, self.thunk = self.thunk, None
+        return t() if t is not None else []
+
+
 def _elements(v):
     """the elements of an iterable value as a list (a single-use iterator is consumed)."""
-    if isinstance(v, _Iter):
+    if isinstance(v, (_Iter, _Gen)):
         return v.take()
     if isinstance(v, (list, tuple, set, frozenset, dict, range)):
         return list(v)
@@ -429,6 +440,22 @@ class _Model:
         if stub is not None:
             return stub(given)
         env.update(given)
+        if any(isinstance(n, (ast.Yield, ast.YieldFrom)) for n in walk_body(fn)):
+            # a generator function: the call itself runs nothing; the values are produced (and the side effects happen) when the result is consumed
+            def body():
+                env[_YIELDED] = out = []
+                self._depth += 1
+                try:
+                    if self._depth > 6:
+                        raise CannotEval("call depth")
+                    self.run(fn.body, env)
+                except _Ret:
+                    pass
+                finally:
+                    self._depth -= 1
+                return out
+
+            return _Gen(body)
         self._depth += 1
         try:
             if self._depth > 6:
@@ -612,8 +639,20 @@ class _Model:
                         raise CannotEval(f"{u(n)[:60]}: {x}")
                 if d in ("list", "tuple") and plain and len(n.args) == 1:
                     v = val(n.args[0])
-                    if isinstance(v, (_Iter, list, tuple, dict, set, frozenset, range)):
+                    if isinstance(v, (_Iter, _Gen, list, tuple, dict, set, frozenset, range)):
                         return bound(_elements(v) if d == "list" else tuple(_elements(v)))
+                if d == "dict.fromkeys" and plain and len(n.args) in (1, 2) and "dict" not in env2:
+                    # the value is evaluated ONCE: every key is bound to the same object (a mutable value is shared by all keys)
+                    try:
+                        return bound(dict.fromkeys(_elements(val(n.args[0])), val(n.args[1]) if len(n.args) == 2 else None))
+                    except TypeError as x:
+                        raise CannotEval(f"{u(n)[:60]}: {x}")
+                if d == "dict" and plain and len(n.args) == 1 and "dict" not in env2:
+                    v = val(n.args[0])
+                    try:
+                        return bound(dict(v) if isinstance(v, dict) else dict(tuple(x) for x in _elements(v)))
+                    except (TypeError, ValueError) as x:
+                        raise CannotEval(f"{u(n)[:60]}: {x}")
                 if d in ("list", "dict", "set") and plain and not n.args:
                     return bound({"list": list, "dict": dict, "set": set}[d]())
                 if d in ("collections.defaultdict", "defaultdict") and plain and len(n.args) == 1 and dotted(n.args[0]) in ("list", "dict", "set", "int"):
@@ -660,6 +699,15 @@ class _Model:
                 for k in n.keywords:
                     if k.arg == "key":
                         k.value = self.visit(k.value)
+                return n
+
+            def visit_BinOp(self, n):
+                self.generic_visit(n)
+                if isinstance(n.op, ast.Mult) and (isinstance(n.left, (ast.List, ast.Tuple)) or isinstance(n.right, (ast.List, ast.Tuple))):
+                    # sequence repetition: the elements are evaluated once, the result holds the SAME objects n times
+                    a_, b_ = val(n.left), val(n.right)
+                    if (isinstance(a_, (list, tuple)) and isinstance(b_, int) and not isinstance(b_, bool)) or (isinstance(b_, (list, tuple)) and isinstance(a_, int) and not isinstance(a_, bool)):
+                        return bound(a_ * b_)
                 return n
 
             def visit_Subscript(self, n):
@@ -720,6 +768,14 @@ class _Model:
                 v = s.value
                 if isinstance(v, ast.Constant) or is_logging_call(v):
                     continue
+                if isinstance(v, (ast.Yield, ast.YieldFrom)):
+                    if not isinstance(env.get(_YIELDED), list):
+                        raise CannotEval("yield outside an interpreted generator function")
+                    if isinstance(v, ast.Yield):
+                        env[_YIELDED].append(None if v.value is None else self.ev(v.value, env))
+                    else:
+                        env[_YIELDED].extend(_elements(self.ev(v.value, env)))
+                    continue
                 if isinstance(v, ast.Call) and isinstance(v.func, ast.Attribute) and v.func.attr in ("append", "clear", "extend") and not v.keywords:
                     recv = self.ev(v.func.value, env)
                     if isinstance(recv, list):
@@ -778,6 +834,7 @@ class _Model:
 
 
 _NOTHING = object()
+_YIELDED = "<yielded>"
 
 
 def _decide(chk, rid, text, node, fn, key=None):
@@ -964,6 +1021,9 @@ def _emits(H, func, keep=()):
             cand = n.value.elts[0]
         elif isinstance(n, (ast.ListComp, ast.GeneratorExp)):
             cand = n.elt
+        elif isinstance(n, ast.Yield) and n.value is not None:
+            # the routine is a generator: every value it yields is one emitted value (the caller drains it)
+            cand = n.value
         if cand is None:
             continue
         t = H.resolve(cand, func, keep)
@@ -2563,7 +2623,7 @@ def run(chk):
             for p, a_ in source.bind_args(c, fn).items():
                 if isinstance(a_, ast.Name) and a_.id == sp:
                     scopes.append((fn, p))
-    ok, site, detail, located, skips = False, calc, "no loop over the batch that appends each sample to its task's group", False, False
+    ok, site, detail, located, skips, fresh_groups = False, calc, "no loop over the batch that appends each sample to its task's group", False, False, True
     for fn, p in scopes:
         gg = cfg_of(fn)
         for lp in [n for n in walk_body(fn) if isinstance(n, ast.For) and isinstance(n.iter, ast.Name) and n.iter.id == p and isinstance(n.target, ast.Name)]:
@@ -2589,6 +2649,13 @@ def run(chk):
                       and any(u(source.inline_node(x, gdefs)) == sv_ for x in n.value.elts)]
             skips = not _every_iteration_passes(gg, lp, [gg.node_of(a_) for a_ in apps_ + opens_]) or any(isinstance(x, (ast.Break, ast.Return)) for x in ast.walk(lp))
             site, detail = lp, short(apps_[0], 60)
+            # where the list a sample is appended to comes from: one made for THIS key (setdefault(key, []), `G[key] = []` inside the loop, a defaultdict(list)); anything else
+            # (lists made before the loop, dict.fromkeys(keys, []), [[]] * n ...) may be one object under several keys - only the evaluation on values can tell
+            gname = apps_[0].func.value.value if isinstance(apps_[0].func.value, ast.Subscript) else None
+            fresh_groups = (not isinstance(apps_[0].func.value, ast.Subscript)
+                            or any(isinstance(n, ast.Assign) and _empty_list(n.value) and any(isinstance(t, ast.Subscript) and u(t.value) == u(gname) for t in n.targets) for n in ast.walk(lp))
+                            or any(isinstance(n, ast.Assign) and any(u(t) == u(gname) for t in n.targets) and isinstance(n.value, ast.Call) and last_attr(n.value.func) == "defaultdict"
+                                   and len(n.value.args) == 1 and dotted(n.value.args[0]) == "list" for n in walk_body(fn)))
     gb = [c for c in ast.walk(calc) if isinstance(c, ast.Call) and dotted(c.func) in ("itertools.groupby", "groupby")]
     gb_unclear = False
     if gb and not ok:
@@ -2635,6 +2702,9 @@ def run(chk):
                             "the condition was not recognised", site)
     elif located and gb_unclear and not ok:
         chk.unknown("O6.1", f"`{short(site, 70)}`: whether the input of groupby is ordered by the grouping key was not recognised", site)
+    elif located and ok and not fresh_groups:
+        chk.unknown("O6.1", f"`{detail}`: where the list of a task's group is created was not recognised (one fresh list per task key? a list shared by several keys hands every task the samples "
+                            "of all tasks of the batch) and calculate() could not be evaluated on values", site)
     elif located:
         chk.ob("O6.1", "grouping by task keeps every sample of the batch (interleaved tasks included)", ok, site, detail, key=gkey)
     else:
@@ -3643,4 +3713,93 @@ _var("defect in a refactored shape: extracted helper stamps every record with th
 
     def merge(self, *args):
         result = {}
+''')])
+
+
+# ---- seeding round 6 (C06-m17): the groups of one batch must be DISTINCT lists - the interpreter now knows dict.fromkeys (value evaluated once, shared by every key), so the
+# grouping / isolation obligations of O6.1 are decided on values for that spelling too instead of falling back to the structural reading
+_GRP_OLD = '''        samples_per_task = {}
+        # first we group all samples by task (operation).
+        for sample in samples:
+            k = sample.task
+            if k not in samples_per_task:
+                samples_per_task[k] = []
+            samples_per_task[k].append(sample)
+'''
+_var("seed m17: every task of the batch shares one sample list (dict.fromkeys(..., []))", "break", "O6.1", [(_GRP_OLD, '''        samples_per_task = dict.fromkeys((sample.task for sample in samples), [])
+        for sample in samples:
+            samples_per_task[sample.task].append(sample)
+''')])
+_var("one list created before the grouping loop is stored under every new task key", "break", "O6.1", [(_GRP_OLD, '''        samples_per_task = {}
+        group = []
+        for sample in samples:
+            k = sample.task
+            if k not in samples_per_task:
+                samples_per_task[k] = group
+            samples_per_task[k].append(sample)
+''')])
+_var("groups pre-created as copies of one replicated list ([[]] * n zipped with the task keys)", "break", "O6.1", [(_GRP_OLD, '''        keys = list(dict.fromkeys(sample.task for sample in samples))
+        samples_per_task = dict(zip(keys, [[]] * len(keys)))
+        for sample in samples:
+            samples_per_task[sample.task].append(sample)
+''')])
+_var("refactored: groups pre-created, one fresh list per key (dict comprehension over dict.fromkeys)", "keep", None, [(_GRP_OLD, '''        samples_per_task = {t: [] for t in dict.fromkeys(sample.task for sample in samples)}
+        for sample in samples:
+            samples_per_task[sample.task].append(sample)
+''')])
+_var("refactored: dict.fromkeys with an immutable placeholder, every group re-bound to a fresh list before the first append", "keep", None, [(_GRP_OLD, '''        samples_per_task = dict.fromkeys((sample.task for sample in samples), None)
+        for sample in samples:
+            if samples_per_task[sample.task] is None:
+                samples_per_task[sample.task] = []
+            samples_per_task[sample.task].append(sample)
+''')])
+
+# ---- benign C06-b12: the two per-task routines as GENERATORS (yield instead of append + return); a yielded 5-tuple is an emit site, the interpreter runs a generator's body when
+# its result is consumed (_Gen)
+_GEN_CTT = [("        task_throughput = []\n\n        if task not in self.task_stats:", "        if task not in self.task_stats:"),
+            ('''                task_throughput.append(
+                    (
+                        sample.absolute_time,
+                        sample.relative_time,
+                        current.sample_type,
+                        current.throughput,
+                        # we calculate throughput per second
+                        f"{sample.total_ops_unit}/s",
+                    )
+                )
+''', '''                yield (
+                    sample.absolute_time,
+                    sample.relative_time,
+                    current.sample_type,
+                    current.throughput,
+                    f"{sample.total_ops_unit}/s",
+                )
+'''), ('''            task_throughput.append(
+                (
+                    last_sample.absolute_time,
+                    last_sample.relative_time,
+                    current.sample_type,
+                    current.throughput,
+                    f"{last_sample.total_ops_unit}/s",
+                )
+            )
+
+        return task_throughput
+''', '''            yield (
+                last_sample.absolute_time,
+                last_sample.relative_time,
+                current.sample_type,
+                current.throughput,
+                f"{last_sample.total_ops_unit}/s",
+            )
+''')]
+_var("refactored: both per-task routines are generators, drained by calculate() (extend)", "keep", None, _GEN_CTT + [(_MTT_OLD, '''        for sample in current_samples:
+            yield (sample.absolute_time, sample.relative_time, sample.sample_type, sample.throughput, f"{sample.total_ops_unit}/s")
+''')])
+_var("defect in a refactored shape: generator pass-through yields nothing for a throughput of 0", "break", "O6.4", _GEN_CTT + [(_MTT_OLD, '''        for sample in current_samples:
+            if sample.throughput:
+                yield (sample.absolute_time, sample.relative_time, sample.sample_type, sample.throughput, f"{sample.total_ops_unit}/s")
+''')])
+_var("defect in a refactored shape: generator yields the type of the bucket-closing sample", "break", "O6.3", [_GEN_CTT[0], (_GEN_CTT[1][0], _GEN_CTT[1][1].replace("current.sample_type", "sample.sample_type")), _GEN_CTT[2]] + [(_MTT_OLD, '''        for sample in current_samples:
+            yield (sample.absolute_time, sample.relative_time, sample.sample_type, sample.throughput, f"{sample.total_ops_unit}/s")
 ''')])
